@@ -300,6 +300,40 @@ def run(ctx):
             rc, t = eng.finish()
             if rc is None:
                 eng.kill()
+    # ---- BACKWARD analysis in one cache (driver `backward`): a position, some of its successors and some of theirs are searched
+    # successors FIRST, so that the cache holds ROOT entries (exact mate scores among them) of positions that are children of the next
+    # root — the order in which a GUI steps back through a game.  Every answer must be a legal move of the position searched.
+    # (Seeded change r8C09: a root window starting at -32767 instead of -32768: a forced move into a position already searched as a
+    # mate-in-one root scores exactly -32767, "does not improve", and the first PSEUDO-legal move is announced.)
+    import json as _json
+    import positions as PP
+    from concurrent.futures import ThreadPoolExecutor as _TPE
+    bfens = ["5R2/1k6/8/8/8/8/6PP/4q2K w - - 0 1", "8/1k6/8/8/8/8/6PP/4qR1K b - - 1 1"]
+    bfens += [l.strip() for l in open(C.os.path.join(C.VERIF, "corpus", "mate_fens.txt")) if l.strip() and not l.startswith("#")]
+    bfens += PP.mate_hunt_positions(ctx["seed"] + 1, 2500 if ctx["tier"] == "quick" else 60000)
+    bchunks = [bfens[i::C.NPROC] for i in range(C.NPROC)]
+
+    def _bw(chunk):
+        p_ = C.subprocess.run([C.ENGINE, "verif", "backward"], input="".join(f + "\n" for f in chunk), capture_output=True, text=True, timeout=3000)
+        res_ = [_json.loads(l) for l in p_.stdout.splitlines() if l.startswith("{")]
+        return list(zip(chunk, res_)) if len(res_) == len(chunk) else None
+    with _TPE(max_workers=C.NPROC) as ex:
+        bparts = list(ex.map(_bw, bchunks))
+    nbs = nbad = 0
+    if any(x is None for x in bparts):
+        rp = C.write_replay(prop, {"broken": "backward-analysis leg (driver `backward`) did not complete"})
+        violations.append({"replay": rp, "no_input": True})
+    else:
+        for f, r_ in (x for part in bparts for x in part):
+            nbs += r_.get("searches", 0)
+            for b_ in ([{"moves": "", "best": "panic"}] if r_.get("panic") else r_.get("bad", [])):
+                nbad += 1
+                if nbad <= 3:
+                    rp = C.write_replay(prop, {"kind": "backward analysis in one cache: the move announced after a completed depth-2 search is not a legal move of the position searched",
+                                               "root": f, "position_searched": "root + " + (b_["moves"] or "(nothing)"), "announced": b_["best"],
+                                               "replay_cmd": "printf '%s\\n' | %s verif backward | grep searches" % (f, C.ENGINE)})
+                    violations.append({"replay": rp})
+    cov["backward_analysis_searches"] = nbs
     cov["gos_after_setoption"] = opt_gos
     cov["advertised_options"] = [l[len("option name "):] for l in opt_lines]
     cov["tiny_budget_gos_after_full_search"] = tiny_gos
